@@ -6,7 +6,9 @@ package c13
 //     keysFromRemote (so Done()-count >= 1 <=> parked), and starts no download of its own;
 //   * the owner's download reaches the endpoint carrying the values of the owner's context (since the repair: not its cancellation);
 //   * the updateKeys span starts / ends once per download and ends after the cache was updated;
-//   * the same program yields the same outcome every time.
+//   * the same program yields the same outcome every time;
+//   * contexts that carry a deadline: the key set never asks for it (Deadline() evaluations = 0), the deadline of the caller
+//     that started the download passing while the endpoint is silent fails that caller alone.
 
 import (
 	"encoding/json"
@@ -107,6 +109,50 @@ func TestMechanismOwnerCancel(t *testing.T) {
 		sum := res.Info.(*summary)
 		if sum.Verdicts["must-accept:fetch"] != 2 || sum.Verdicts["must-reject:own-context-cancelled-while-waiting"] != 1 || sum.Verdicts["must-accept:cache"] != 1 || sum.Requests != 1 {
 			t.Fatalf("round %d: %v requests=%d", round, sum.Verdicts, sum.Requests)
+		}
+	}
+}
+
+// TestMechanismOwnerDeadline: the caller that starts the download has a context with a near deadline, the others wait
+// with contexts without deadline / with a far one; the owner's deadline passes before the endpoint answers.
+func TestMechanismOwnerDeadline(t *testing.T) {
+	set0 := []JWK{{Key: "p256a", Kid: "p256a", Use: "sig"}}
+	cur := Caller{Kind: "cur", Key: "p256a", Alg: "ES256", Kid: "p256a"}
+	near := cur
+	near.Ctx, near.DeadlineMs = "near", 5
+	far := cur
+	far.Ctx = "far"
+	c := Case{Sets: [][]JWK{set0}, Phases: []Phase{
+		{Mode: "sched", Fetch: Doc{Kind: "serve", Set: 0}, Callers: []Caller{near, cur, far, near, near},
+			Events: []Event{{"expire", 4}, {"arrive", 0}, {"arrive", 1}, {"arrive", 2}, {"arrive", 3}, {"arrive", 4}, {"expire", 0}, {"release", 0}}},
+		{Mode: "sched", Fetch: Doc{Kind: "500"}, Callers: []Caller{near}, Events: []Event{{"arrive", 0}, {"release", 0}}},
+	}}
+	for round := 0; round < 20; round++ {
+		lastWorld = nil
+		keepWorld = true
+		res := run(c)
+		keepWorld = false
+		if len(res.Viol) != 0 {
+			t.Fatalf("round %d: %v", round, res.Viol)
+		}
+		sum := res.Info.(*summary)
+		b, _ := json.Marshal(sum.Verdicts)
+		// caller 3 (near, deadline passes after the release) is must-accept or, on a slow machine, grey
+		late := sum.Verdicts["must-accept:fetch"] - 2 + sum.Verdicts["grey:own-deadline-instant-reached-during-call"]
+		if sum.Verdicts["must-accept:fetch"] < 2 || late != 1 || sum.Verdicts["must-reject:own-deadline-passed-while-waiting"] != 1 ||
+			sum.Verdicts["must-reject:own-deadline-passed-before-call"] != 1 || sum.Verdicts["must-accept:cache"] != 1 || sum.Requests != 1 {
+			t.Fatalf("round %d: %s requests=%d", round, b, sum.Requests)
+		}
+		if !strings.HasPrefix(sum.phaseSig[0], "eOWWWxdR3_/") {
+			t.Fatalf("round %d: phase signature %q", round, sum.phaseSig[0])
+		}
+		for _, cr := range lastWorld.callers {
+			if cr.probe.deadlineCalls != 0 {
+				t.Fatalf("round %d: the key set evaluated Deadline() of a caller's context", round)
+			}
+		}
+		if testing.Verbose() && round == 0 {
+			fmt.Println(strings.Join(lastWorld.trace, "\n"))
 		}
 	}
 }
